@@ -15,6 +15,7 @@ contracts of std/serde, ghost vocabulary, lemmas).  Directives pull item text ou
   //@loop <k>        lines: invariant/decreases/ensures inserted on the k-th loop header of the body (T5)
   //@before <k> <regex>   lines inserted before the k-th body line matching regex (T5, ghost only)
   //@after  <k> <regex>   lines inserted after it
+  //@top             lines inserted at the very start of the body (ghost only: `broadcast use`, `let ghost`)
   //@sig             lines: replacement signature up to (not including) the body brace; the original
                      signature's parameter names must all occur in it (logged as T8)
   //@endfn
@@ -461,6 +462,13 @@ def apply_fn_rules(fn, d, log):
         body = "\n".join(lines)
         log.append({"rule": "T5/" + inj["where"], "fn": d["name"], "regex": inj["regex"], "k": inj["k"]})
     body = body.replace(" //@inj", "")
+    if d.get("top"):
+        txt = "\n".join(d["top"])
+        check_injection(txt, d["name"] + " top")
+        if not body.startswith("{"):
+            raise ExtractError("body of %s does not start with a brace" % d["name"])
+        body = "{\n" + txt + "\n" + body[1:]
+        log.append({"rule": "T5/top", "fn": d["name"]})
     if d.get("sig"):
         new = "\n".join(d["sig"])
         # parameter names of the original must survive
@@ -490,12 +498,15 @@ class Unit:
         self.mode = mode            # normal | twin
         self.twin_target = twin_target   # index (in order of appearance) of the one fn whose ensures becomes `false`
         self.fn_counter = 0
+        self.twin_key = None        # twinkey= of the target fn (resolved in a pre-pass)
         self.log = []
         self.functions = []         # evidence: extracted functions
         self.regions = []           # (line_lo, line_hi, fn name, default_tag, kind)
         self.srcs = {}
         self.out = []
         self.twin_skips = []
+        self.stub_depth = 0         # >0 while processing a fragment included with `stub`
+        self.context_depth = 0      # >0 while processing a fragment included with `context` (verified, no twin/accounting)
 
     def src(self, path):
         if path not in self.srcs:
@@ -522,9 +533,17 @@ class Unit:
             l = lines[i]
             st = l.strip()
             if st.startswith("//@include "):
-                p = os.path.join(VERIF, st.split(None, 1)[1].strip())
+                parts = st.split()
+                p = os.path.join(VERIF, parts[1])
+                flag = parts[2] if len(parts) > 2 else ""
+                if flag not in ("", "stub", "context"):
+                    raise ExtractError("bad include flag " + flag)
+                self.stub_depth += flag == "stub"
+                self.context_depth += flag == "context"
                 with open(p) as f:
                     self.process(f.read().split("\n"))
+                self.stub_depth -= flag == "stub"
+                self.context_depth -= flag == "context"
                 i += 1
             elif st.startswith("//@item "):
                 self.do_item(parse_kv(st[len("//@item "):]), [])
@@ -559,6 +578,8 @@ class Unit:
                     kind = sec[0]
                     if kind == "attr":
                         d["attr"] = buf[:]
+                    elif kind == "top":
+                        d["top"] = buf[:]
                     elif kind == "spec":
                         d["spec"] = buf[:]
                     elif kind == "sig":
@@ -596,6 +617,11 @@ class Unit:
             elif st.startswith("//@"):
                 raise ExtractError("unknown directive: " + st)
             else:
+                m = re.match(r"^(.*?)\s*//@twin (\S+) => (.*)$", l)
+                if m:
+                    l = m.group(3) if (self.mode == "twin" and self.twin_key == m.group(2)) else m.group(1)
+                if self.stub_depth > 0:
+                    l = re.sub(r"\[(C\d\d\.[A-Za-z0-9_-]+)\]", r"(\1)", l)
                 self.out.append(l)
                 i += 1
 
@@ -661,10 +687,31 @@ class Unit:
         spec = d["spec"][:]
         my_index = self.fn_counter
         self.fn_counter += 1
-        if d.get("twin", "").startswith("skip"):
+        stub = self.stub_depth > 0 or d.get("stub")
+        if stub:
+            # T7: callee stub -- signature and contract of the real function, body dropped; proved in its home unit
+            # (or, for `stub=<reason>` on the directive itself, assumed and listed in the trusted base)
+            spec = strip_ensures_tags(spec)
+            self.emit("#[verifier::external_body]")
+            lo = self.cur_line()
+            self.emit(sig.rstrip())
+            spec_lo = self.cur_line()
+            for s_ in spec:
+                self.emit(s_)
+            body_lo = self.cur_line()
+            self.emit("{ unimplemented!() }")
+            hi = self.cur_line() - 1
+            self.functions.append({"stub_of": d["name"], "impl": d.get("impl", "-"), "file": d["file"], "lines": list(fn["lines"]),
+                                   "sha256": raw_hash, "assumed_here": bool(d.get("stub")), "why": d.get("stub") or "proved in its home unit"})
+            self.regions.append((lo, hi, d["name"], None, "stub", spec_lo, body_lo, my_index))
+            return
+        if self.context_depth > 0:
+            self.twin_skips.append({"fn": d["name"], "index": my_index, "why": "context copy; twin runs in the home unit"})
+        elif d.get("twin", "").startswith("skip"):
             self.twin_skips.append({"fn": d["name"], "index": my_index, "why": d["twin"]})
         elif self.mode == "twin" and self.twin_target == my_index:
-            spec = twin_spec(spec)
+            if not d.get("twinkey"):
+                spec = twin_spec(spec)
         for a in d["attr"]:
             self.emit(a)
         lo = self.cur_line()
@@ -677,7 +724,21 @@ class Unit:
         hi = self.cur_line() - 1
         self.functions.append({"fn": d["name"], "impl": d.get("impl", "-"), "file": d["file"], "lines": list(fn["lines"]),
                                "sha256": raw_hash, "closure": bool(d["closure"])})
-        self.regions.append((lo, hi, d["name"], d.get("default_tag"), "fn", spec_lo, body_lo, my_index))
+        self.regions.append((lo, hi, d["name"], d.get("default_tag"), "fn", spec_lo, body_lo, my_index, d.get("twinkey")))
+
+
+def strip_ensures_tags(spec):
+    """in a stub the `ensures` clauses are assumptions, not obligations: their property tags are removed;
+    tags on `requires` clauses stay (they become call-site obligations of the including unit)"""
+    out, in_req = [], False
+    for l in spec:
+        s = l.strip()
+        if re.match(r"requires\b", s):
+            in_req = True
+        elif re.match(r"(ensures|decreases|recommends)\b", s):
+            in_req = False
+        out.append(l if in_req else re.sub(r"\[(C\d\d\.[A-Za-z0-9_-]+)\]", r"(\1)", l))
+    return out
 
 
 def twin_spec(spec):
@@ -698,8 +759,9 @@ def twin_spec(spec):
     return out
 
 
-def generate(unit_name, out_path, mode="normal", twin_target=None):
+def generate(unit_name, out_path, mode="normal", twin_target=None, twin_key=None):
     u = Unit(unit_name, mode, twin_target)
+    u.twin_key = twin_key
     text = u.build(os.path.join(VERIF, "units", unit_name + ".vrs"))
     os.makedirs(os.path.dirname(out_path), exist_ok=True)
     with open(out_path, "w") as f:
